@@ -1040,6 +1040,13 @@ func MakeBitfieldFromByteSlice(bytes []byte) (Bitfield, error) {
 		bitfield[i] = (bytes[i/8] >> (i % 8)) & 0x01
 	}
 
+	// the bits above CoresCount in the last octet are not part of the value
+	for i := CoresCount; i < 8*len(bytes); i++ {
+		if (bytes[i/8]>>(i%8))&0x01 != 0 {
+			return Bitfield{}, fmt.Errorf("Bitfield bit %d is set but there are only %d cores", i, CoresCount)
+		}
+	}
+
 	return bitfield, nil
 }
 
